@@ -4,8 +4,8 @@
 
    hx_rc rand <seed> <nexec> [maxops]   seeded random op lists (all op kinds interleaved)
    hx_rc list                            op lists from stdin (lifted TLC behaviours, --replay)
-   hx_rc tf <seed> <stride>              ec_tell_frac on constructed contexts: every 16-bit mantissa
-                                         (step <stride>) x every normalised magnitude             */
+   hx_rc tf <seed> <fills>               ec_tell_frac on constructed contexts: every 16-bit mantissa x every
+                                         normalised magnitude x <fills> (1|3) settings of the low bits    */
 #include "hx_common.h"
 #include "entenc.h"
 #include "entdec.h"
@@ -143,7 +143,7 @@ typedef int (*next_fn)(void *ctx, ec_enc *enc, int i, op_t *o);
 static long g_exec_id;
 
 /* runs encoder (ops supplied by next), ec_enc_done, decoder; emits the execution */
-static void run_exec(next_fn next, void *ctx, int size0, int fill, int fit, meas_t *M)
+static void run_exec(next_fn next, void *ctx, int size0, int fill, int fit, meas_t *M, hx_rng *garble, const unsigned char *forced, int nforced)
 {
    hx_buf B = hx_buf_new(size0, (unsigned char)fill);
    unsigned char *tail = (unsigned char *)malloc(size0 + 1), *before = (unsigned char *)malloc(size0 + 1), *snap = (unsigned char *)malloc(size0 + 1);
@@ -166,7 +166,7 @@ static void run_exec(next_fn next, void *ctx, int size0, int fill, int fit, meas
       }
       if (o.k == K_PATCH && enc.offs == 0 && enc.rem < 0 && enc.ext > 0) M->pfd = 1;
       apply_enc(&enc, &o);
-      if (fit && o.k != K_SHRINK && o.k != K_PATCH && (ec_tell(&enc) > 8 * (int)enc.storage || enc.error)) {
+      if (fit && o.k != K_SHRINK && o.k != K_PATCH && ec_tell(&enc) > 8 * (int)enc.storage) {
          enc = save; memcpy(B.p, snap, size0); break;      /* would bust: stop this list here */
       }
       if (o.k == K_SHRINK) memcpy(tail, B.p, size0);
@@ -180,7 +180,10 @@ static void run_exec(next_fn next, void *ctx, int size0, int fill, int fit, meas
    tb = ec_tell(&enc); e0 = enc.error;
    ec_enc_done(&enc);
    { int j; for (j = enc.storage; j < size0; j++) if (B.p[j] != tail[j]) tdiff++; }
-   /* decoder over the same calls */
+   /* decoder over the same calls; with garble the driver first overwrites the stream with random bytes so that
+      the decoder (and TLC's model of it) is exercised on arbitrary input: recorded as garb=1 */
+   if (forced) { int j; for (j = 0; j < (int)enc.storage && j < nforced; j++) B.p[j] = forced[j]; }
+   else if (garble) { int j; int mode = (int)hx_u(garble, 3); for (j = 0; j < (int)enc.storage; j++) B.p[j] = mode == 0 ? (unsigned char)hx_next(garble) : mode == 1 ? 0xFF : (hx_u(garble, 4) ? B.p[j] : (unsigned char)hx_next(garble)); }
    memcpy(before, B.p, size0);
    ec_dec_init(&dec, B.p, enc.storage);
    dt0 = ec_tell(&dec); df0 = ec_tell_frac(&dec); dr0 = dec.rng;
@@ -212,7 +215,7 @@ static void run_exec(next_fn next, void *ctx, int size0, int fill, int fit, meas
    { int j; for (j = 0; j < size0; j++) if (B.p[j] != before[j]) dmod++; }
    /* ---- emit ---- */
    g_exec_id++;
-   printf("{\"k\":\"begin\",\"x\":%ld,\"n0\":%d,\"n1\":%u,\"fill\":%d,\"fit\":%d", g_exec_id, size0, enc.storage, fill, fit);
+   printf("{\"k\":\"begin\",\"x\":%ld,\"n0\":%d,\"n1\":%u,\"fill\":%d,\"fit\":%d,\"garb\":%d", g_exec_id, size0, enc.storage, fill, fit, (garble || forced) ? 1 : 0);
    js_arr_b("b", B.p, (int)enc.storage);
    printf(",\"err\":%d,\"e0\":%d,\"tb\":%d,\"derr\":%d", enc.error ? 1 : 0, e0 ? 1 : 0, tb, dec.error ? 1 : 0);
    printf(",\"pt\":[");
@@ -240,7 +243,7 @@ static void run_exec(next_fn next, void *ctx, int size0, int fill, int fit, meas
       }
       printf("}\n");
    }
-   printf("{\"k\":\"end\",\"x\":%ld}\n", g_exec_id);
+   printf("{\"k\":\"end\",\"x\":%ld,\"derr\":%d}\n", g_exec_id, dec.error ? 1 : 0);
    free(tail); free(before); free(snap); hx_buf_free(&B);
 }
 
@@ -376,7 +379,7 @@ static void one_random(hx_rng *r, int maxops) {
       if (hx_u(r, 2)) c.patch_at = hx_range(r, 1, 12);
    }
    fill = fills[hx_u(r, 4)];
-   run_exec(next_rand, &c, c.size0, fill, c.fit, &M);
+   run_exec(next_rand, &c, c.size0, fill, c.fit, &M, hx_u(r, 10) == 0 ? r : NULL, NULL, 0);
 }
 
 /* ---- op lists from stdin ---- */
@@ -400,9 +403,9 @@ static int find_or_add_table(const uint32_t *v, int n, int ftb, int wide) {
 
 static void do_list(void) {
    /* format:  X <size0> <fill>   then one op per line, then  E
-        enc fl fh ft | bin fl fh bits | logp b logp | icdf s ftb n t0..tn-1 | icdf16 ... | uint v ft | bits v n | patch v n | shrink size */
-   static char line[8192];
-   typedef struct { int size0, fill, first, n; } ex_t;
+        G b0 b1 ... (optional: the decoder reads these bytes) | enc fl fh ft | bin fl fh bits | logp b logp | icdf s ftb n t0..tn-1 | icdf16 ... | uint v ft | bits v n | patch v n | shrink size */
+   static char line[32768];
+   typedef struct { int size0, fill, first, n, nforced; unsigned char *forced; } ex_t;
    ex_t *exs = NULL; int nex = 0, capex = 0; op_t *all = NULL; int nall = 0, capall = 0, i;
    while (fgets(line, sizeof line, stdin)) {
       char kw[32]; int pos = 0;
@@ -412,8 +415,13 @@ static void do_list(void) {
          exs[nex].size0 = 1; exs[nex].fill = 0; sscanf(line + pos, "%d %d", &exs[nex].size0, &exs[nex].fill);
          if (exs[nex].size0 < 0) exs[nex].size0 = 0;
          if (exs[nex].size0 > 65536) exs[nex].size0 = 65536;
-         exs[nex].first = nall; exs[nex].n = 0; nex++;
+         exs[nex].first = nall; exs[nex].n = 0; exs[nex].forced = NULL; exs[nex].nforced = 0; nex++;
       } else if (!strcmp(kw, "E") || !nex) { continue; }
+      else if (!strcmp(kw, "G")) {                /* bytes the decoder is to read instead of the encoder's output */
+         char *q = line + pos; ex_t *x = &exs[nex - 1]; unsigned long t; int p3 = 0;
+         x->forced = (unsigned char *)malloc(4096); x->nforced = 0;
+         while (x->nforced < 4096 && sscanf(q, "%lu%n", &t, &p3) == 1) { x->forced[x->nforced++] = (unsigned char)t; q += p3; }
+      }
       else {
          op_t o; unsigned long a = 0, b = 0, c = 0; int ok = 1;
          memset(&o, 0, sizeof o);
@@ -445,8 +453,9 @@ static void do_list(void) {
    emit_tabs();
    for (i = 0; i < nex; i++) {
       lctx_t c; meas_t M; c.ops = all + exs[i].first; c.n = exs[i].n;
-      run_exec(next_list, &c, exs[i].size0, exs[i].fill & 255, 0, &M);
+      run_exec(next_list, &c, exs[i].size0, exs[i].fill & 255, 0, &M, NULL, exs[i].forced, exs[i].nforced);
    }
+   for (i = 0; i < nex; i++) free(exs[i].forced);
    free(exs); free(all);
 }
 
@@ -456,15 +465,16 @@ static void tf_case(uint32_t rng, int nb) {
    c.rng = rng; c.nbits_total = nb;
    printf("{\"k\":\"tf\",\"rh\":%u,\"rl\":%u,\"nb\":%d,\"tf\":%d,\"tl\":%d}\n", rng >> 16, rng & 0xFFFF, nb, (int)ec_tell_frac(&c), ec_tell(&c));
 }
-static void do_tf(hx_rng *r, int stride) {
+static void do_tf(hx_rng *r, int fills) {
+   /* every 16-bit mantissa x every magnitude of a normalised range; fills = 3: low bits 0, all ones and random,
+      fills = 1: one of the three chosen at random */
    uint32_t m; int l;
-   if (stride < 1) stride = 1;
-   for (m = 32768 + hx_u(r, stride); m < 65536; m += stride)
+   for (m = 32768; m < 65536; m++)
       for (l = 24; l <= 31; l++) {
-         int sh = l - 16; uint32_t lowmask = (1u << sh) - 1;
-         tf_case(m << sh, 33 + (int)hx_u(r, 40000));
-         tf_case(m << sh | lowmask, 33 + (int)hx_u(r, 40000));
-         tf_case(m << sh | (uint32_t)(hx_next(r) & lowmask), 33 + (int)hx_u(r, 40000));
+         int sh = l - 16, which = fills >= 3 ? -1 : (int)hx_u(r, 3); uint32_t lowmask = (1u << sh) - 1;
+         if (which < 0 || which == 0) tf_case(m << sh, 33 + (int)hx_u(r, 40000));
+         if (which < 0 || which == 1) tf_case(m << sh | lowmask, 33 + (int)hx_u(r, 40000));
+         if (which < 0 || which == 2) tf_case(m << sh | (uint32_t)(hx_next(r) & lowmask), 33 + (int)hx_u(r, 40000));
       }
    tf_case(0x80000000u, 33); tf_case(0x80000000u, 33 + (int)hx_u(r, 40000));
    tf_case(0x00800001u, 41); tf_case(0x00800000u + 1u + hx_u(r, 1000), 41 + (int)hx_u(r, 1000));
